@@ -21,7 +21,7 @@ def mutants():
 
 
 def seeded():
-    rows = ["| seeded change | property | what it breaks (files) | existing tests | demonstration | quick | thorough |", "|---|---|---|---|---|---|---|"]
+    rows = ["| seeded change | property | what it breaks (files) | existing tests | demonstration | quick | thorough | note |", "|---|---|---|---|---|---|---|---|"]
     for d in sorted(glob.glob(os.path.join(ROOT, "seeded", "*"))):
         mp = os.path.join(d, "meta.json")
         if not os.path.exists(mp):
@@ -38,8 +38,8 @@ def seeded():
             return "; ".join(out) or "—"
         demo = res.get("demo", {})
         dem = "ok" if demo and all(v["fails_on_patched"] and v["passes_on_repo"] for v in demo.values()) else ("—" if not demo else "NOT confirmed")
-        rows.append("| %s | %s | %s: %s | %s | %s | %s | %s |" % (meta["name"], meta["property"], meta.get("summary", ""), ", ".join(meta["files"]),
-                    "pass" if res.get("unit_tests_pass") else "?", dem, tier("quick"), tier("thorough")))
+        rows.append("| %s | %s | %s: %s | %s | %s | %s | %s | %s |" % (meta["name"], meta["property"], meta.get("summary", ""), ", ".join(meta["files"]),
+                    "pass" if res.get("unit_tests_pass") else "?", dem, tier("quick"), tier("thorough"), meta.get("note", "")))
     return "\n".join(rows)
 
 
